@@ -10,6 +10,7 @@ package main
 
 import (
 	"fmt"
+	"strings"
 
 	"github.com/goghcrow/yae/types"
 )
@@ -254,6 +255,12 @@ func c17Pair(r *Run, x, y *T, init map[string]*T) {
 	r.Count("unify:" + out.cls)
 	if out.cls == "ok" {
 		r.Nontrivial(string(req))
+		// no variable bound, directly or through other bindings, to a type containing itself (checked BEFORE the
+		// substitution is applied: applying a cyclic one does not terminate)
+		if cyc := cyclicBinding(out.m); cyc != "" {
+			r.Violate("unify-occurs", fmt.Sprintf("%s ~ %s", x, y), "cyclic substitution: "+cyc)
+			return
+		}
 		// soundness on the implementation's own answer
 		var ax, ay *T
 		lenient0 := y.hasKind("bot") || x.hasKind("top") || x.hasKind("bot") || y.hasKind("top") || initHas(init, "bot")
@@ -264,7 +271,11 @@ func c17Pair(r *Run, x, y *T, init map[string]*T) {
 			// the substitution cannot even be applied (e.g. a map key variable bound to a composite through the
 			// empty-container leniency): only an alarm when no leniency was involved
 			if !lenient0 && len(init) == 0 {
-				r.Violate("unify-sound", fmt.Sprintf("%s ~ %s", x, y), "applying the resulting substitution panics: "+msg)
+				k := "unify-sound"
+				if strings.Contains(msg, "invalid type of map's key") {
+					k = "unify-binds-map-key-variable-to-unkeyable-type"
+				}
+				r.Violate(k, fmt.Sprintf("%s ~ %s", x, y), "applying the resulting substitution panics: "+firstLine(msg))
 			}
 			r.Count("unify:ok-but-unappliable")
 			return
@@ -403,6 +414,93 @@ func runC17(r *Run) {
 		}
 	}
 	r.Notes = append(r.Notes, fmt.Sprintf("exhaustive block: %d patterns^2 x %d grounds^2, stride %d", len(pats), len(grds), stride))
+
+	// exhaustive, variables on BOTH sides (occurs check after substitution, bindings made earlier in the same call)
+	{
+		two := []*T{a, b, num, tp("list", a), tp("list", b), tp("list", num)}
+		for _, p1 := range two {
+			for _, p2 := range two {
+				for _, q1 := range two {
+					for _, q2 := range two {
+						c17Pair(r, tp("tuple", p1, p2), tp("tuple", q1, q2), nil)
+					}
+				}
+			}
+		}
+		wide := enumTypes(1, []*T{num, a, b}, false)
+		stride2 := 1
+		if r.Tier == "quick" {
+			stride2 = 23
+		}
+		k2 := int(r.Seed % int64(stride2))
+		if k2 < 0 {
+			k2 = -k2
+		}
+		idx2 := 0
+		for _, p1 := range wide {
+			for _, p2 := range wide {
+				for _, q1 := range wide {
+					for _, q2 := range wide {
+						idx2++
+						if idx2%stride2 == k2 {
+							c17Pair(r, tp("tuple", p1, p2), tp("tuple", q1, q2), nil)
+						}
+					}
+				}
+			}
+		}
+		r.Notes = append(r.Notes, fmt.Sprintf("two-sided exhaustive blocks: %d^4 (all) and %d^4 with stride %d", len(two), len(wide), stride2))
+	}
+
+	// shared type nodes: Go types are graphs — the checker hands out the environment's own *Type for an identifier, so
+	// one node can occur several times inside a type; Equals / Unify must treat such a DAG as the tree it denotes.
+	{
+		gs := &tyGen{r: r, vars: []string{"a"}, names: []string{"x", "y", "z"}}
+		ns := 400
+		if r.Tier == "thorough" {
+			ns = 20000
+		}
+		for i := 0; i < ns; i++ {
+			t := gs.gen(1 + r.Rng.Intn(2))
+			t2 := t
+			if r.Rng.Intn(3) != 0 {
+				t2 = gs.mutate(t)
+			}
+			sh := t.Go() // ONE node used in several places
+			var gx, gy *types.Type
+			var tx, ty *T
+			switch r.Rng.Intn(4) {
+			case 0:
+				gx = types.Obj([]types.Field{{Name: "a", Val: sh}, {Name: "b", Val: sh}})
+				tx = &T{K: "obj", Fn: []string{"a", "b"}, Sub: []*T{t, t}}
+				ty = &T{K: "obj", Fn: []string{"a", "b"}, Sub: []*T{t, t2}}
+			case 1:
+				gx = types.Tuple([]*types.Type{sh, sh, sh})
+				tx = tp("tuple", t, t, t)
+				ty = tp("tuple", t, t, t2)
+			case 2:
+				gx = types.List(types.Obj([]types.Field{{Name: "p", Val: sh}, {Name: "q", Val: types.List(sh)}}))
+				tx = tp("list", &T{K: "obj", Fn: []string{"p", "q"}, Sub: []*T{t, tp("list", t)}})
+				ty = tp("list", &T{K: "obj", Fn: []string{"p", "q"}, Sub: []*T{t, tp("list", t2)}})
+			default:
+				gx = types.Map(types.Str, types.Tuple([]*types.Type{sh, types.Maybe(sh)}))
+				tx = tp("map", tp("str"), tp("tuple", t, tp("maybe", t)))
+				ty = tp("map", tp("str"), tp("tuple", t, tp("maybe", t2)))
+			}
+			gy = ty.Go()
+			for _, pr := range [][2]*types.Type{{gx, gy}, {gy, gx}} {
+				eq := types.Equals(pr[0], pr[1])
+				r.Case(L(A("tyeq"), TySx(pr[0]), TySx(pr[1])), Bool(eq))
+				if eq != refEq(tx, ty) && !tx.hasKind("fun") && !ty.hasKind("fun") {
+					r.Violate("eq-structural-shared-node", fmt.Sprintf("%s vs %s (left built with one shared node)", tx, ty), fmt.Sprintf("Equals=%v structural=%v", eq, refEq(tx, ty)))
+				}
+			}
+			r.Count("shared-node pairs")
+			m := map[string]*types.Type{}
+			out := implUnify(gx, gy, m)
+			r.Case(L(A("unify"), TySx(gx), TySx(gy), SubstSx(map[string]*types.Type{})), out.Sx())
+		}
+	}
 
 	// random pairs, deeper, with related (mutated) partners, variables on both sides, initial substitutions
 	g := &tyGen{r: r, vars: []string{"a", "b", "c"}, bot: true, top: true, names: []string{"x", "y", "z", "w"}}
@@ -548,4 +646,57 @@ func instantiate(r *Run, p *T, ga *tyGen) *T {
 	}
 	pre(p)
 	return rec(p)
+}
+
+// cyclicBinding: a dependency cycle among the bindings (a variable bound to itself alone counts as unbound).
+func cyclicBinding(m map[string]*types.Type) string {
+	dep := map[string][]string{}
+	var vars func(t *T, acc *[]string)
+	vars = func(t *T, acc *[]string) {
+		if t.K == "var" {
+			*acc = append(*acc, t.Name)
+		}
+		for _, s := range t.Sub {
+			vars(s, acc)
+		}
+	}
+	label := func(k string) string {
+		if l, ok := tyVarLabel[k]; ok {
+			return l
+		}
+		return k
+	}
+	for k, v := range m {
+		tv := FromGo(v)
+		if tv.K == "var" && tv.Name == label(k) {
+			continue
+		}
+		var acc []string
+		vars(tv, &acc)
+		dep[label(k)] = acc
+	}
+	state := map[string]int{}
+	var visit func(n string) string
+	visit = func(n string) string {
+		switch state[n] {
+		case 1:
+			return n
+		case 2:
+			return ""
+		}
+		state[n] = 1
+		for _, d := range dep[n] {
+			if c := visit(d); c != "" {
+				return n + " -> " + c
+			}
+		}
+		state[n] = 2
+		return ""
+	}
+	for k := range dep {
+		if c := visit(k); c != "" {
+			return c
+		}
+	}
+	return ""
 }
